@@ -312,6 +312,10 @@ pub fn materialise(root: &Path, w: &World, program: &[u8]) -> std::io::Result<La
             }
             argv1.extend_from_slice(b"a.sd");
         }
+        13 | 14 => {
+            // the script is what stdin is open on (`seed /dev/stdin < script`)
+            argv1.extend_from_slice(if w.spelling == 13 { b"/dev/stdin".as_slice() } else { b"/proc/self/fd/0".as_slice() });
+        }
         12 => {
             let ln = cwd.join("lnx");
             let _ = fs::remove_file(&ln);
@@ -487,7 +491,8 @@ fn run_inner(cfg: &Config, worker: usize, program: &[u8], w: &World, plan: &Plan
 
     // stdin
     let mut keep: Vec<OwnedFd> = vec![];
-    let stdin_fd: Option<OwnedFd> = match w.stdin {
+    let stdin_fd: Option<OwnedFd> = match if w.spelling == 13 || w.spelling == 14 { 100 } else { w.stdin } {
+        100 => Some(OwnedFd::from(fs::File::open(&lay.script)?)),
         1 => None,
         2 => {
             let (r, wr) = make_pipe()?;
